@@ -14,14 +14,18 @@ func init() { register("C04", true, checkC04) }
 
 func checkC04(c *Ctx) {
 	e1CheckConstants(c, "C04-K6", []string{"dhcpv4.", "iana.Arch", "iana.HWType"}, 200)
+	byteOrderRule(c, "C04-K7", []string{"dhcpv4", "iana", "rfc1035label"}, 10)
+	e8CheckRejects(c, "C04-K8", func(n string) bool { return n == "dhcpv4.FromBytes" || strings.Contains(n, "dhcpv4.Options)") }, 3)
 	r := c.R
 	r.Decides = append(r.Decides,
 		"K1 dhcpv4.FromBytes returns a packet only if the Lexer error is nil after the last header read (every header read dominates the test), the cookie equals the magic constant and option parsing returned nil",
 		"K2 option loop: code 0 continues without reading a length; code 255 leaves the loop and sets the flag the End check reads; a value that overruns the buffer (Consume == nil) is an error; success requires End seen or checkEnd false; FromBytes passes checkEnd = true",
 		"K3 hlen clamp: the hardware address is the first min(hlen,16) bytes of the 16 read",
+		"K5 the server host name and boot file name are the bytes of their fixed fields up to the first NUL, converted without re-encoding (shared with C01-K2)",
 		"K4 nothing after End is read; instances concatenate in order of appearance (C01-K4); header layout (C01-K1 rows, re-evaluated)")
-	r.NotDecided = append(r.NotDecided, "that every well-formed packet is accepted (extra guards are listed, not judged)", "field values beyond the slot/field agreement of C01-K1")
+	r.NotDecided = append(r.NotDecided, "that every well-formed packet is accepted, beyond the census of explicit rejections (K8): a rejection expressed through the Lexer or a callee is judged by the schema rows only", "field values beyond the slot/field agreement of C01-K1")
 	c04Header(c)
+	c01Names(c, "C04-K5")
 	c04Loop(c)
 	e2CheckLayouts(c, "C04-K4", func(name string, f *ssa.Function) bool { return name == "dhcpv4.FromBytes" }, 1)
 	c09Reassembly2(c, "C04-K4")
